@@ -207,7 +207,7 @@ def run(ctx):
     d = ctx.stage("Future")
     exe = ctx.harness("fut_replay", ["harness/future/fut_replay.c"])
     scen = SCENARIOS + ([] if ctx.quick else SCENARIOS_THOROUGH)
-    nrandom = 40 if ctx.quick else 3000
+    nrandom = 40 if ctx.quick else 500
     executions = []
     t0 = [time.time()]
 
@@ -288,7 +288,7 @@ def run(ctx):
         scf = os.path.join(ctx.scratch, sc["name"] + ".scn")
         tr = os.path.join(ctx.scratch, sc["name"] + ".rtrace")
         meta = os.path.join(ctx.scratch, sc["name"] + ".rmeta")
-        exs, metas = run_harness(ctx, exe, ["random", scf, str(250 if ctx.quick else 30000), tr, meta, str(ctx.seed)], tr, meta)
+        exs, metas = run_harness(ctx, exe, ["random", scf, str(250 if ctx.quick else 3000), tr, meta, str(ctx.seed)], tr, meta)
         for e in exs:
             executions.append((sc["name"], "random", e))
     ctx.exhaustive = all_exh
@@ -304,7 +304,7 @@ def run(ctx):
         scenario_file(sc, scf)
         tr = os.path.join(ctx.scratch, "stress%d.trace" % i)
         meta = os.path.join(ctx.scratch, "stress%d.meta" % i)
-        exs, metas = run_harness(ctx, exe, ["stress", scf, str(40 if ctx.quick else 1500), tr, meta], tr, meta, timeout=600)
+        exs, metas = run_harness(ctx, exe, ["stress", scf, str(40 if ctx.quick else 250), tr, meta], tr, meta, timeout=600)
         nstress += len(exs)
         if i == 2:
             ctx.sample({"stress_scenario": sc})
